@@ -16,7 +16,7 @@ func TestVerifC08Wire(t *testing.T) {
 	explore.Main("C08", []explore.Part{
 		c08Part("varint", "exhaustive: every 1- and 2-byte varint encoding and (thorough: every 3-byte string) through quicvarint.Parse/Read/Append/AppendWithLen/Len against a reference codec; 4- and 8-byte encodings with every byte position swept over 0..255 around the width boundaries", c08VarintPart),
 		c08Part("frame-types", "exhaustive: all 256 one-byte and all 2-byte-varint frame types 0..16383, each followed by 7 constant-filled bodies, at 4 encryption levels x 8 feature-flag combinations (1-RTT also with ack delay exponents 0 and 20)", c08FrameTypesPart),
-		c08Part("bytes-frames", "exhaustive: every byte string of length <= 2 (thorough: <= 3) as packet payload through FrameParser at 4 encryption levels x 8 feature-flag combinations", c08BytesFramesPart),
+		c08Part("bytes-frames", "exhaustive: every byte string of length <= 2 as packet payload through FrameParser at 4 encryption levels x 8 feature-flag combinations (thorough: also every 3-byte string at 4 levels x {all extensions negotiated, none})", c08BytesFramesPart),
 		c08Part("bytes-headers", "exhaustive: every byte string of length <= 2 (thorough: <= 3) through ParsePacket/ParseExtended, ParseShortHeader (connection ID lengths 0,1,2), ParseVersionNegotiationPacket, ParseConnectionID, TransportParameters.Unmarshal (both perspectives), UnmarshalFromSessionTicket", c08BytesHeadersPart),
 		c08Part("lattice-frames", "structured lattice: one case per (frame type, leading field) chunk; every value is encoded, length-checked, parsed back under every level/flag configuration, then every prefix and single-byte substitution of the encoding is parsed", func(bool) c08PartSpec { return c08FrameLatticePart() }),
 		c08Part("lattice-headers", "structured lattice over long headers (type x version x connection ID lengths x token length x packet number length/value x payload length), short headers, version negotiation packets, plus raw long headers built by a reference encoder (any first byte/version/connection ID length byte/token length/Length); every prefix and single-byte substitution of every header encoding", c08HeaderLatticePart),
@@ -65,6 +65,9 @@ func c08BytesFramesPart(thorough bool) c08PartSpec {
 		chunks[i] = func(c *c08Ctx) {
 			c08ShortStrings(b0, c08MaxLen(c.thorough), func(b []byte) {
 				for ci, g := range cfgs {
+					if len(b) == 3 && g.dg != g.rsa || g.dg != g.af && len(b) == 3 {
+						continue // 3-byte strings: all extensions on / all off only
+					}
 					o := c.checkFrameBytes(g, b, c08Versions[ci%2])
 					if len(b) == 2 && b[1] == 0x01 {
 						c.sample("%x @%s -> %s", b, g, o)
@@ -73,7 +76,7 @@ func c08BytesFramesPart(thorough bool) c08PartSpec {
 			})
 		}
 	}
-	return c08PartSpec{chunks: chunks, bound: fmt.Sprintf("all byte strings of length <= %d x 32 parser configurations (256 chunks by first byte)", c08MaxLen(thorough))}
+	return c08PartSpec{chunks: chunks, bound: fmt.Sprintf("all byte strings of length <= 2 x 32 parser configurations%s (256 chunks by first byte)", map[bool]string{false: "", true: ", all byte strings of length 3 x 4 levels x {all extensions, none}"}[thorough])}
 }
 
 func c08BytesHeadersPart(thorough bool) c08PartSpec {
@@ -88,7 +91,9 @@ func c08BytesHeadersPart(thorough bool) c08PartSpec {
 					if len(b) == 2 && b[1] == 0x07 && cl == 0 {
 						c.sample("%x -> long: %s, short(cid 0): %s", b, o, o2)
 					}
-					c.checkConnIDHelpers(b, cl)
+					if len(b) < 3 || cl == 1 {
+						c.checkConnIDHelpers(b, cl)
+					}
 				}
 				c.checkVNBytes(b)
 				for _, pers := range c08Perspectives {
@@ -326,11 +331,15 @@ func c08HeaderLatticePart(thorough bool) c08PartSpec {
 			chunks = append(chunks, func(c *c08Ctx) {
 				for _, dl := range rawLens {
 					for _, sl := range rawLens {
+						tails, tokLens := []int{0, 68}, c08BndSmall
+						if c.thorough {
+							tails, tokLens = []int{0, 4, 68}, c08Bnd
+						}
 						for _, length := range c08Bnd {
 							for _, widths := range []int{0, 1} {
-								for _, tail := range []int{0, 4, 68} {
+								for _, tail := range tails {
 									c.checkLongHeaderBytes(c08RefLongHeader(first, ver, dl, sl, 0, false, length, widths, tail))
-									for _, tl := range c08Bnd {
+									for _, tl := range tokLens {
 										c.checkLongHeaderBytes(c08RefLongHeader(first, ver, dl, sl, tl, true, length, widths, tail))
 									}
 								}
@@ -389,7 +398,7 @@ func c08HeaderLatticePart(thorough bool) c08PartSpec {
 			}
 		})
 	}
-	return c08PartSpec{chunks: chunks, bound: fmt.Sprintf("%d chunks: long header values 4 types x 2 versions x CID lengths {0,1,8,20}^2 x token lengths {0,1,63,64} x 4 packet number lengths x boundary packet numbers x payload {0,1,63,64,16383-pnlen}; raw long headers 21 first bytes x 6 versions x CID length bytes {0,1,20,21,255}^2 x token length/Length from the boundary set x {minimal, 8-byte} varints x tails {0,4,68}; short headers CID {0,1,8,20} x 4 pn lengths x boundary pns x key phase, all 256 first bytes; VN packets CID {0,1,20,21,255}^2 x 5 version lists; prefixes+substitutions of all value encodings", len(chunks))}
+	return c08PartSpec{chunks: chunks, bound: fmt.Sprintf("%d chunks: long header values 4 types x 2 versions x CID lengths {0,1,8,20}^2 x token lengths {0,1,63,64} x 4 packet number lengths x boundary packet numbers x payload {0,1,63,64,16383-pnlen}; raw long headers 21 first bytes x 6 versions x CID length bytes {0,1,20,21,255}^2 x Length from the boundary set, token length from {0,63,64,16384,2^30,2^62-1} (thorough: boundary set) x {minimal, 8-byte} varints x tails {0,68} (thorough: {0,4,68}); short headers CID {0,1,8,20} x 4 pn lengths x boundary pns x key phase, all 256 first bytes; VN packets CID {0,1,20,21,255}^2 x 5 version lists; prefixes+substitutions of all value encodings", len(chunks))}
 }
 
 // ---- transport parameter parts ----------------------------------------------------------------------
